@@ -47,12 +47,14 @@ class SBool(Sym):
 class SInt(Sym):
     """Python int (mathematical).  `bv` optionally carries the unsigned bit-vector the
     integer was read from, so that float conversion can be bit-precise."""
-    __slots__ = ("bv",)
+    __slots__ = ("bv", "fpsrc")
     pytype = int
 
-    def __init__(self, term, bv=None):
+    def __init__(self, term, bv=None, fpsrc=None):
         self.term = term
         self.bv = bv
+        self.fpsrc = fpsrc      # integral-valued binary64 term this int was obtained from (floor / int / trunc of a float):
+                                # converting back to float, or comparing with a small constant, can then stay inside FP
 
 
 class SReal(Sym):
